@@ -271,7 +271,7 @@ def nested_catalogue(tier):
     bodies = [([["*"]], False, True), ([["a"]], False, True), ([["*"]], False, False), ([["*"], ["*"]], False, True)]
     if thorough:
         bodies += [([["a"], "TREE"], False, False), (["TREE"], True, False), ([["a"]], True, False)]
-    inner_shapes = [("rep", [b], bounds) for b in bodies for bounds in ((2, 2), (1, 2), (1, None))]
+    inner_shapes = [("rep", [b], bounds) for b in bodies for bounds in ((2, 2), (1, 2), (1, None), (0, 2), (0, 1))]
     inner_shapes += [("alt", [b1, b2], None) for b1, b2 in itertools.product(bodies, repeat=2)]
     inner_shapes += [("alt", [([["a"]], False, False)], None), ("rep", [([["a"]], False, False)], (1, 1))]
     outer_bounds = ((1, None), (0, None), (2, 2)) + (((1, 2),) if thorough else ())
